@@ -50,6 +50,29 @@ def make_input(seed, i):
     return case
 
 
+def transposed_shape(case, seed):
+    """A small run whose (sensors, window) = (W, N) of `case` (or (N*W, 1) when N == W)."""
+    from ticcmon.workloads import data as wd
+    d0 = case["data"]
+    N = int(d0["N"])
+    W = int(case["W"])
+    N2, W2 = (W, N) if N != W else (N * W, 1)
+    other = dict(case)
+    other["front"] = "single"
+    other.pop("container", None)
+    other["data"] = dict(d0)
+    other["data"].update(N=N2, T=60 + W2, seed=int(d0["seed"]) + 17, n_reg=3)
+    other["W"] = W2
+    other["K"] = 3
+    other["limit"] = 2
+    other["init"] = None
+    if other["beta"]["form"].startswith("vector"):
+        other["beta"] = dict(form="float", value=5.0)
+    if other["lam"]["form"].startswith("matrix"):
+        other["lam"] = dict(form="float", value=0.11)
+    return other
+
+
 def delays_for(kind, K, rounds, rng):
     plan = {}
     for r in range(rounds):
@@ -100,12 +123,16 @@ def run_shard(spec, res):
                 nproc = max(nproc, K)     # enough workers for a fully reversed completion order
             kind = kinds[(j + (3 if spec["role"] == "B" else 0)) % len(kinds)]
             confs.append(dict(name="np%d-%s-%s" % (nproc, "mp" if mp else "sp", kind), nproc=nproc, mp=mp,
-                              task_plan=delays_for(kind, K, 25, rng), preceding=int(rng.integers(0, 4)) if spec["role"] == "B" else 0))
+                              task_plan=delays_for(kind, K, 25, rng), preceding=int(rng.integers(1, 4)) if spec["role"] == "B" and j % 2 == 0 else 0))
     digests = {}
     for conf in confs:
         for p in range(conf.get("preceding", 0)):
             other = make_input(seed + 1000 + p, (i + 1 + p) % 7)   # another shape: warms memoised helpers / compiled specialisations
             other["limit"] = 2
+            if p == 0:
+                # same N*W, different split: the shape most likely to collide in a badly keyed memo table
+                other = transposed_shape(case, seed)
+                res.count("preceding_calls_same_NW_other_split")
             e2e.run_case(other)
             res.count("preceding_calls")
         d, perms, run = run_config(case, conf, res)
@@ -118,6 +145,8 @@ def run_shard(spec, res):
                     res.nontriv("in%d-%s-%s" % (i, conf["name"], pm))
                     res.count("non_identity_completion_orders")
         res.maxi("forks", instrument_forks())
+        if any(p["phase"] == "repop" and [int(x) for x in p["inp"]["labels"]] != [int(x) for x in p["out"]["labels"]] for p in run.phases):
+            res.count("configurations_with_a_repopulation_draw")
         if d.startswith("EXC:"):
             res.skipped(d)
     res.counters["digests"] = {"input%d" % i: {spec["role"]: digests}}
@@ -165,6 +194,10 @@ def finalize(merged, tier):
     out["permutations_observed"] = perms
     if distinct < 3:
         out["inconclusive"].append("only %d distinct non-identity completion permutations were observed" % distinct)
+    if merged["counters"].get("configurations_with_a_repopulation_draw", 0) < 3:
+        out["inconclusive"].append("fewer than 3 compared configurations drew points for a repopulation (global-generator dependence unobserved)")
+    if merged["counters"].get("preceding_calls_same_NW_other_split", 0) < 3:
+        out["inconclusive"].append("fewer than 3 configurations were preceded by a call with the same N*W but another (N,W) split")
     if compared < (40 if tier == "quick" else 400):
         out["inconclusive"].append("only %d digests compared" % compared)
     return out
